@@ -305,6 +305,17 @@ def run_splitter(case):
             sp.outs[i] = o
         classes.add("NSplitter")
     pkt = mkpkt(1, 4, src="s")
+    # what elements upstream of the splitter leave on a packet (token-bucket colour, TCP ack number, wire/port stamps,
+    # scheduler priorities) belongs to its header as much as the constructor arguments do
+    marks = case.get("marks") or {}
+    for k, v in marks.items():
+        if k in ("perhop_time", "priorities"):
+            getattr(pkt, k).update({kk: vv for kk, vv in v})
+        else:
+            setattr(pkt, k, v)
+    if marks:
+        classes.add("packet marked upstream of the splitter")
+    full = {k: (dict(v) if isinstance(v, dict) else v) for k, v in vars(pkt).items()}
     guarded("C18.no_exception", lambda: sp.put(pkt), "splitter.put")
     fields = ("packet_id", "flow_id", "src", "size", "time", "payload")
     orig = tuple(getattr(pkt, f) for f in fields)
@@ -324,6 +335,10 @@ def run_splitter(case):
                 raise Violation("C18.splitter", f"output {i} got a shared object, not a separate copy", "C18.splitter/shared")
             if tuple(getattr(q, f) for f in fields) != orig:
                 raise Violation("C18.splitter", f"copy at output {i} differs in its header fields", "C18.splitter/fields")
+            diff = {k: (v, getattr(q, k, "<missing>")) for k, v in full.items() if getattr(q, k, "<missing>") != v}
+            if diff:
+                raise Violation("C18.splitter", f"copy at output {i} differs from the packet that was split (original, copy): {diff}",
+                                "C18.splitter/fields-marked")
         seen.append(q)
     # header fields can be changed independently
     for k, q in enumerate(seen[1:], 1):
@@ -587,7 +602,11 @@ def hub_strategy(tier):
 
 def splitter_strategy(tier):
     good = st.integers(2, 5).flatmap(lambda n: st.fixed_dictionaries({
-        "n": st.just(n), "two": st.booleans(), "bad": st.none(), "mask": st.lists(st.booleans(), min_size=5, max_size=5)}))
+        "n": st.just(n), "two": st.booleans(), "bad": st.none(), "mask": st.lists(st.booleans(), min_size=5, max_size=5),
+        "marks": st.fixed_dictionaries({}, optional={
+            "color": st.sampled_from(["green", "yellow", "red"]), "ack": st.sampled_from([512, 4096]),
+            "current_time": st.sampled_from([0.5, 3]), "dst": st.just("h7"), "realtime": st.just(2.5),
+            "perhop_time": st.just([["p1", 0.5], ["p2", 1.5]]), "priorities": st.just([[0, 3]])})}))
     bad = st.fixed_dictionaries({"n": st.just(2), "two": st.just(False), "mask": st.just([True] * 5),
                                  "bad": st.sampled_from([1, 0, -3, 2.0, "3", None]).filter(lambda x: x is not None)})
     return kgen.weighted([(good, 4), (bad, 2)])
@@ -617,7 +636,8 @@ PROP = Property(
     rule=("FlowDemux(0-5 outs, default or not) x flow ids 0-8; FIBDemux(outs, ends, fib incl. {} and entries pointing outside "
           "outs, default) x flow ids; SimplePacketSwitch and FairPacketSwitch (SP, WFQ, DRR, VirtualClock) with recording devices "
           "behind every port; Hub with 0-6 endpoints built by constructor (with/without ports) and add_endpoint, senders inside "
-          "and outside; Splitter/NSplitter(2-5) with unset outputs and invalid N; FatTree(k) for even k (quick <=8, thorough "
+          "and outside; Splitter/NSplitter(2-5) with unset outputs and invalid N, packets carrying upstream marks (colour, ack, stamps, "
+          "priorities) that every copy must carry too; FatTree(k) for even k (quick <=8, thorough "
           "<=16) and invalid k; generate_flows under a generated random seed; generate_fib with/without TCP reverse entries; "
           "end-to-end simulation on k in {2,4(,6)} with FairPacketSwitch at every node, few classes so that flows share a class. "
           "Oracle, directly from the statement: each packet reaches exactly the device the rule names (or none), no exception "
@@ -639,7 +659,7 @@ PROP = Property(
         Facet("hub", hub_strategy, run_hub, quick=400, thorough=2000,
               essential=["constructor", "add_endpoint", "with port devices", "without port devices", "sender inside", "sender outside"]),
         Facet("splitter", splitter_strategy, run_splitter, quick=300, thorough=1500,
-              essential=["Splitter", "NSplitter", "unset output", "invalid N refused"]),
+              essential=["Splitter", "NSplitter", "unset output", "invalid N refused", "packet marked upstream of the splitter"]),
         Facet("fattree", fattree_strategy, run_fattree, quick=400, thorough=1500,
               essential=[">=2 flows share a link", "reverse (TCP) entries", "invalid k refused"]),
         Facet("fattree_e2e", e2e_strategy, run_e2e, quick=300, thorough=1500, essential=[">=2 flows share a link", "tail drops"]),
